@@ -47,6 +47,10 @@ type Schema struct {
 	// checked (whatever the outcome): the result is kept, so the set of types
 	// must not change any more.
 	isCompiled bool
+
+	// isLoaded true once the schema has been loaded (whatever the outcome): the
+	// result is kept, so the set of rules must not change any more.
+	isLoaded bool
 }
 
 var _ jschema.Schema = (*Schema)(nil)
@@ -188,7 +192,9 @@ func jsonQuote(s string) string {
 }
 
 func (s *Schema) AddRule(n string, r jschema.Rule) error {
-	if s.inner != nil {
+	// The result of the load is computed once and kept, the error of a failed
+	// load too: a rule added later would never be looked at.
+	if s.inner != nil || s.isLoaded {
 		return stdErrors.New("schema is already compiled")
 	}
 
@@ -333,6 +339,7 @@ func (s *Schema) UsedUserTypes() ([]string, error) {
 
 func (s *Schema) load() error {
 	return s.loadOnce.Do(func() (err error) {
+		s.isLoaded = true
 		defer func() {
 			err = panics.Handle(recover(), err)
 		}()
